@@ -26,6 +26,9 @@ RULE = (
     "both runners; every application in the tree is judged by the same oracle and the outcome is an error as soon as one application is. distinct_nontrivial = distinct (type, op, a, b) whose exact "
     "result is an error, lies within 2 of a range bound, or has a zero/negative/non-finite operand."
 )
+TECHNIQUE = (
+    "runtime monitoring: recording wrappers on the celtypes operator methods + parsed expressions under both runners, checked against an exact integer / IEEE-754 reference on boundary grids, random operands, compound and nested expressions"
+)
 ASSUMPTIONS = [
     "only same-type operand pairs are asserted (mixed types are outside the statement)",
     "the class of the result is C13's business; values are compared by number / bit pattern",
